@@ -221,6 +221,21 @@ def _namesUsed(code):
     return out
 
 
+def _globalsUsed(code):
+    """Names a function body looks up as globals, including inside nested scopes. ``co_names`` will not do: it lists
+    attribute names as well, and ``d.math`` is not the module ``math``."""
+    import dis
+
+    out = set()
+    for instruction in dis.get_instructions(code):
+        if instruction.opname in ("LOAD_GLOBAL", "LOAD_NAME", "STORE_GLOBAL", "STORE_NAME", "DELETE_GLOBAL", "DELETE_NAME"):
+            out.add(instruction.argval)
+    for const in code.co_consts:
+        if isinstance(const, types.CodeType):
+            out |= _globalsUsed(const)
+    return out
+
+
 class UserFcn:
     """Base trait for user functions.
 
@@ -366,7 +381,7 @@ class UserFcn:
             return (deserializeString, (self.__class__, self.expr, self.name))
 
         if isinstance(self.expr, types.FunctionType):
-            refs = {n: self.expr.__globals__[n] for n in _namesUsed(self.expr.__code__) if n in self.expr.__globals__}
+            refs = {n: self.expr.__globals__[n] for n in _globalsUsed(self.expr.__code__) if n in self.expr.__globals__}
             return (
                 deserializeFunction,
                 (
